@@ -59,6 +59,7 @@ def variants():
     mk("union-tags", lambda p: step(p, "c", Union(("i", P("int32")), ("s", P("string")))), "same-encoding")
     mk("vector-length", lambda p: step(p, "d", Vec(P("float32"), 4)))
     mk("vector-dynamic", lambda p: step(p, "d", Vec(P("float32"))))
+    mk("vector-length-zero", lambda p: step(p, "d", Vec(P("float32"), 0)))     # encodes nothing; the dynamic vector above encodes a count
     mk("array-shape", lambda p: step(p, "e", Arr(P("float32"), [3, 2])), "same-encoding")
     mk("array-rank", lambda p: step(p, "e", Arr(P("float32"), [6])), "same-encoding")
     mk("array-not-fixed", lambda p: step(p, "e", Arr(P("float32"), 2)))
